@@ -7,7 +7,7 @@ import vlib
 
 PID = "C16"
 FILES = ["theories/Properties/C16.v", "theories/Examples/C16Examples.v", "theories/Examples/C16Wirings.v",
-         "theories/Examples/C16W3Wirings.v", "theories/Examples/C16W5DeleteWhere.v"]
+         "theories/Examples/C16W3Wirings.v", "theories/Examples/C16W5DeleteWhere.v", "theories/Examples/C16W7Wirings.v"]
 
 
 def sys_families(sch):
@@ -415,7 +415,11 @@ def main(argv):
                      "the model counterpart is state := state after step k (Store/SystemRestore.v)",
                      "every entry point of a transaction (Db.Update, Db.Batch, a join of either inside an open transaction, a bolt "
                      "transaction the caller rolls back when the body returned an error) has the contract of Db.Update: run_tx / "
-                     "run_mtx / run_xtx of the machine; the entry point is not modelled separately"]
+                     "run_mtx / run_xtx of the machine; the entry point is not modelled separately",
+                     "REF-COUNTED link collections (wirings c16rr / c16rc / c16rk / c16rx, store_c16w7.go) are not modelled: the store "
+                     "machine has plain link sets only; a ref-counted collection can reach the compared projection (results, "
+                     "entities, isSystem flags) only through the result of a delete, and the link counts the harness puts on "
+                     "entities after a successful create / update (tx-level link API, no MutateContext) are set-up"]
     proof_ok = c.proof_step(FILES)
     storefamx.run_family_x(
         c, "c16", 2000, 24000, compare, oracle,
@@ -457,7 +461,15 @@ def main(argv):
         "populations mixing system and ordinary entities (filter true or a value a system entity holds, an ordinary entity "
         "with the same value under a random id created in front of it; 78% ordinary contexts): a DeleteWhere of an ordinary "
         "context whose filter matches a protected system entity must report an error (Store/SystemDeleteWhere.v, "
-        "delete_where_system_refused: at any position of the id order). Non-trivial: the history updates or deletes an existing "
+        "delete_where_system_refused: at any position of the id order). Seventh strengthening (store_c16w7.go): ~22% of the histories use wirings in which the "
+        "store that carries the constraint - or a store of its family - OWNS LINK COLLECTIONS, plain and REF-COUNTED "
+        "(AddRefCountedLinkCollection; wiringDecl kind rclink): c16rr root store with a plain and a ref-counted collection "
+        "registered before the constraint, c16rc constraint on the root and the ref-counted collection on its plain child "
+        "store, c16rk constraint, plain and ref-counted collection on the plain child store only, c16rx root with "
+        "cascades and an extended child; after ~50% of the successful creates / updates the harness increments link counts "
+        "on the entity towards the entities of the other store (1-2 per target), so that deletes meet entities with and "
+        "without links / counts: the refusal recorded by ProcessBeforeDelete must survive the link clean-up of every "
+        "collection kind. Non-trivial: the history updates or deletes an existing "
         "system entity of a constrained family (also by DeleteWhere), or a refusal was swallowed.",
         nontrivial=nontrivial)
     if not proof_ok:
